@@ -53,7 +53,7 @@ def l4(rep):
                               "the single- and double-precision versions are the same algorithm with the family's names exchanged, "
                               "but they differ at token %d: `%s` (line %d of %s) against `%s` (line %d of %s); one of the two was "
                               "changed without its sibling" % (i, ta, la, a, tb, lb, b))
-    rep.floor("sibling pairs compared", n, 20)
+    rep.floor("sibling pairs compared", n, 25)
 
 
 def run(tier, only=None):
